@@ -663,7 +663,7 @@ class Check(PropertyCheck):
             "distinct = distinct (script, policy, defer, connect, options); non-trivial = at least one flow fired "
             "requestheaders.")
     budget = {"quick": 9000, "thorough": 400000}
-    time_budget = {"quick": 30, "thorough": 540}
+    time_budget = {"quick": 25, "thorough": 540}
     fingerprints = ["mitmproxy.proxy.layers.http:HttpStream._handle_event",
                     "mitmproxy.proxy.layers.http:HttpStream.state_wait_for_request_headers",
                     "mitmproxy.proxy.layers.http:HttpStream.start_request_stream",
@@ -730,6 +730,20 @@ class Check(PropertyCheck):
     def generate(self, rng, tier):
         for name, steps in SKELETONS:
             yield self._case(name, steps)
+        # HTTP/2 client/server pairs (oracle only): skeletons × fault at every step × policies
+        for name, steps in H2_SKELETONS:
+            yield {"h2": 1, "sk": name, "steps": steps, "policy": {}, "defer": {}, "opts": {}}
+            for fault in H2_FAULTS:
+                for pos in range(len(steps) + 1):
+                    if fault == ["connfail"]:
+                        yield {"h2": 1, "sk": name, "steps": steps, "policy": {}, "defer": {}, "opts": {}, "connfail": 1}; break
+                    yield {"h2": 1, "sk": name, "steps": steps[:pos] + [fault] + steps[pos:], "policy": {}, "defer": {}, "opts": rng.pick(OPTS)}
+            for h, acts in HOOK_ACTIONS.items():
+                for a in acts:
+                    for d in (0, 1):
+                        if a == "pass" and not d: continue
+                        st = list(steps) + ([["resume"]] * 2 if d and rng.chance(0.5) else [])
+                        yield {"h2": 1, "sk": name, "steps": st, "policy": {h: [a, a, a]}, "defer": {h: [d, d, d]} if d else {}, "opts": rng.pick(OPTS)}
         # a fault at every step index of every skeleton (all body-size options in the thorough tier)
         for name, steps in SKELETONS:
             for fault in FAULTS:
@@ -746,20 +760,6 @@ class Check(PropertyCheck):
                         if a == "pass" and not d: continue
                         for opts in (OPTS if tier == "thorough" else [rng.pick(OPTS)]):
                             yield self._case(name, steps, {h: [a, a]}, {h: [d, d]} if d else {}, opts=opts)
-        # HTTP/2 client/server pairs (oracle only): skeletons × fault at every step × policies
-        for name, steps in H2_SKELETONS:
-            yield {"h2": 1, "sk": name, "steps": steps, "policy": {}, "defer": {}, "opts": {}}
-            for fault in H2_FAULTS:
-                for pos in range(len(steps) + 1):
-                    if fault == ["connfail"]:
-                        yield {"h2": 1, "sk": name, "steps": steps, "policy": {}, "defer": {}, "opts": {}, "connfail": 1}; break
-                    yield {"h2": 1, "sk": name, "steps": steps[:pos] + [fault] + steps[pos:], "policy": {}, "defer": {}, "opts": rng.pick(OPTS)}
-            for h, acts in HOOK_ACTIONS.items():
-                for a in acts:
-                    for d in (0, 1):
-                        if a == "pass" and not d: continue
-                        st = list(steps) + ([["resume"]] * 2 if d and rng.chance(0.5) else [])
-                        yield {"h2": 1, "sk": name, "steps": st, "policy": {h: [a, a, a]}, "defer": {h: [d, d, d]} if d else {}, "opts": rng.pick(OPTS)}
         if tier == "thorough":
             # policy × fault × position
             for name, steps in SKELETONS:
